@@ -31,7 +31,7 @@ ENGINES = {
         trusted_base=['hand-written models of util.ApplyLibrdkafkaConf, confluent ConfigMap.SetKey, the four buildConfigMap default tables, '
                       'KafkaConsumer.checkConfig and the Nodeconfig getters (Model/Params.v), of strconv.Atoi/Itoa/ParseBool for 64-bit int '
                       '(Model/Atoi.v, read against $GOROOT/src/strconv) — tied to the code only by this correspondence run',
-                      'strconv.ParseFloat / FormatFloat are NOT modelled: the case carries what they answered (oracle), and their round trip on the '
+                      'strconv.ParseFloat / FormatFloat are NOT modelled: the Go driver derives what they answer for the texts of the case (oracle, reported in the observation, never read from the input), and their round trip on the '
                       'default is a guard evaluated on every case',
                       'the float order key (IEEE-754 bits -> order-preserving integer, +0/-0 identified) computed by the Go harness',
                       'verif hooks node/kafkaconsumer/verif_hooks.go (BuildConfigMapV, CheckConfigV), message/verif_hooks_e8.go, '
